@@ -25,6 +25,8 @@ var c12Routes = []string{
 	"/d/{x}/", "/d/", "/./{x}", "/{x}/../{y}", "/d/./e/{x}/..", "/d/{x}/?",
 	// an optional last segment after binds that carry annotations (expression, capture limit)
 	"/t/{name}/{withOptional}", "/u/{y: /[0-9]+/}/?e", "/f/{m: **, capture: 3}/r/?d", "/{y: /a+/, z: /b+/}/?{o}", "/u/{y: /[0-9]+/}/?{o: /e+/}",
+	// literal text with characters that template languages give a meaning to
+	"/o/$m/{x}", "/p/{x}/q$u", "/i/${x}", "/j/$$/{x}/$", "/k/%s/{x}/%d", "/l/(x)/{x}", "/n/{x}~{y}/@{self}",
 	// binds that carry the names the syntax uses for its annotations
 	"/f/{capture: **}", "/g/{capture: **, capture: 2}/?raw", "/h/{capture}/{y}", "/i/{capture: /[0-9]+/}/r",
 }
